@@ -139,6 +139,22 @@ def case_of(kind, L, terms, strengths, **extra):
     return c
 
 
+def markers_off(H):
+    """IdL[b] / IdR[b] are documented as the indices of 'only identities to the left / right': the entry of W_i between two
+    consecutive markers is the identity operator.  Returns a description of the first entry that is not, or ''."""
+    for name, marks in (('IdL', H.IdL), ('IdR', H.IdR)):
+        for i_ in range(H.L):
+            a, b = marks[i_], marks[i_ + 1]
+            if a is None or b is None:
+                continue
+            W = H.get_W(i_).to_ndarray()
+            W = np.transpose(W, [H.get_W(i_).get_leg_index(l) for l in ('wL', 'wR', 'p', 'p*')])
+            blk = W[a, b]
+            if not (np.linalg.norm(blk - np.eye(blk.shape[0])) <= 1e-12):
+                return '%s: W_%d[%r, %r] is not the identity (markers %r)' % (name, i_, a, b, list(marks))
+    return ''
+
+
 def check_mpo(ctx, name, H, ref, case, tol=1e-10):
     from vf import dense
     try:
@@ -372,6 +388,12 @@ def do_sort_legcharges(ctx, rng, i):
     H2.sort_legcharges()
     check_mpo(ctx, 'sort_legcharges', H2, ref, case)
     check_mpo(ctx, 'copy:operand-changed', H, ref, case)
+    # the markers IdL / IdR of both objects still point at the identity paths of their own tensors (the dense matrix of a finite MPO
+    # only uses the markers at the two ends)
+    for who, X in (('sorted-copy', H2), ('original', H)):
+        bad = markers_off(X)
+        if bad:
+            ctx.violation('sort_legcharges:markers-of-%s-do-not-point-at-identities' % who, bad, case)
     finish(ctx, i, 'sort_legcharges', H, kind, len(sites), case)
 
 
